@@ -82,7 +82,8 @@ def judge(chk, j, stats):
         chk.violation("the result lists a message twice", {"case": c, "go": g})
         failed = True
     # one-shot: nil or composite 422 listing exactly the messages of the result, without duplicates
-    if one["outcome"] == "ok":
+    # (AgainstSchema validates at the root path "": with the Swagger-mode options the verdict depends on the path)
+    if one["outcome"] == "ok" and not (c.get("swagger") and c.get("root")):
         if one["nil"] != g["valid"]:
             chk.violation("one-shot verdict differs from the result", {"case": c, "go": g, "oneshot": one})
             failed = True
